@@ -555,7 +555,9 @@ def awaitSyncFlags {ι : Type} (I : Obj ι) (f : Flags) : Flags :=
   match r.2 with
   | .yield _ =>
     let t := I.throw r.1 .syncAbort
-    yieldFlag t.2 f1       -- (a future awaited while *closing* lies outside C05's domain)
+    -- `CoroStart.throw`: what the coroutine yields instead of exiting goes nowhere; a Future's
+    -- flag is cleared as in `_start` (fixes/C05-cleanup-future-flag.patch)
+    startFlag t.2 (yieldFlag t.2 f1)     -- (a future awaited while *closing* lies outside C05's domain)
   | _ => f1
 
 /-! ## `Body → Body` forms for coroutine bodies -/
